@@ -16,8 +16,9 @@ from __future__ import annotations
 
 import re
 
-from harness.common import Failure, Spec
+from harness.common import COQ, REPO, Failure, Spec
 from harness import c22
+from translate import c22 as tr
 
 TOKEN = rb"[!#$%&'*+\-.^_`|~0-9A-Za-z]+"
 REQLINE = re.compile(rb"(" + TOKEN + rb") ([\x21-\x7e]+) (HTTP/1\.[01])")
@@ -375,6 +376,28 @@ def gen(rng, tier):
         body = rng.choice(bodies)
         add(b"POST /f HTTP/1.1\r\nHost: h\r\n" + hs + b"\r\n" + body + SENTINEL, "framing:" + "+".join(
             (n[:1] + b"=" + v).decode("latin1").replace("\r\n", "~") for n, v in combo))
+    # a zero-valued Content-Length FIRST, then any other framing field (possibly after an unrelated field), then a third
+    zeros = [b"0", b"00", b"000", b" 0 "]
+    for z in zeros:
+        for n2, v2 in fields:
+            mid = rng.choice([b"", b"X-Mid: 1\r\n", b"Host: again\r\n"])
+            hs = _case_name(rng, b"Content-Length") + b": " + z + b"\r\n" + mid + _case_name(rng, n2) + b": " + v2 + b"\r\n"
+            add(b"POST /z HTTP/1.1\r\nHost: h\r\n" + hs + b"\r\n" + rng.choice(bodies) + SENTINEL,
+                "framing:C=" + z.decode() + "+" + (n2[:1] + b"=" + v2).decode("latin1").replace("\r\n", "~"))
+        for _ in range(6 if q else 60):
+            (n2, v2), (n3, v3) = rng.choice(fields), rng.choice(fields)
+            hs = b"Content-Length: " + z + b"\r\n" + n2 + b": " + v2 + b"\r\n" + n3 + b": " + v3 + b"\r\n"
+            add(b"POST /z3 HTTP/1.1\r\nHost: h\r\n" + hs + b"\r\n" + rng.choice(bodies) + SENTINEL, "framing:zero-first-triple")
+    # chunk-size fields with a non-hex byte at each position, incl. the end of the field, inside pipelines
+    for size, data in ((b"3", b"abc"), (b"1a", b"x" * 26), (b"0", b"")):
+        for bad in (b"\n", b"\r", b" ", b"\t", b"\x00", b"+", b"-", b"x", b"g", b"_", b"\xff", b"\x0b"):
+            for j in range(len(size) + 1):
+                for ext in (b"", b";e=1"):
+                    sz = size[:j] + bad + size[j:]
+                    chunk = sz + ext + b"\r\n" + (data + b"\r\n0\r\n\r\n" if data else b"\r\n")
+                    pre = b"GET /p HTTP/1.1\r\nHost: h\r\n\r\n" if rng.random() < 0.5 else b""
+                    add(pre + b"POST /c HTTP/1.1\r\nHost: h\r\nTransfer-Encoding: chunked\r\n\r\n" + chunk + SENTINEL,
+                        "chunk-size-byte")
     # Content-Length digits around int()'s limit
     for nd in (4299, 4300, 4301, 5000):
         add(b"POST /big HTTP/1.1\r\nContent-Length: " + b"1" * nd + b"\r\n\r\nabc", "cl-digits")
@@ -479,6 +502,7 @@ SPEC = Spec(
     coq_header="From C19 Require Import Model Run.",
     coq_fn="run_show",
     to_coq=to_coq,
+    regen=lambda: tr.regen(REPO, COQ),      # the model uses C22/Gen.v (_istoken, _ishexdigits tables, limits)
     model_equal=lambda c, a, b: a.split("|")[0] == b,
     nontrivial=lambda c, o: len(c["stream"]) > 40,
     histogram=lambda c, o: (lambda w: c["cls"].split(":")[0] + " -> " + str(w.count("/") + (w[0] != " ")) + w[-1])(o.split("|")[0]),
@@ -492,7 +516,8 @@ SPEC = Spec(
          "request-target; 22 malformed request lines x 0/1/2 leading blank lines; 16 malformed field lines x 3 "
          "positions; all single framing fields from 19 Content-Length and 15 Transfer-Encoding spellings and a "
          "8% sample (thorough: all) of ordered pairs, each followed by a body and a pipelined request; "
-         "Content-Length of 4299-5000 digits; malformed chunked bodies.  non-trivial = stream > 20 bytes",
+         "a zero Content-Length first, then each framing field / sampled pairs; chunk sizes with each of 12 non-hex bytes at "
+         "each position incl. the end of the size field, inside pipelines; Content-Length of 4299-5000 digits; malformed chunked bodies.  non-trivial = stream > 20 bytes",
     trusted=["hand-written model coq/C19/Model.v (tied by this correspondence run); the chunked decoder is the C22 model",
              "reference parser harness/c19.py:ref_parse (RFC 9112 2.2, 3, 5, 6.3; chunked via harness/c22.py:ref_decode) "
              "and Lib/HttpGrammar.v, written from the RFC text; h11 0.16 cross-check on well-formed pipelines",
